@@ -14,6 +14,7 @@ import copy
 from fractions import Fraction
 
 from ..astq import strip, strip_casts, calls, call_args, call_object, writes, written_field, norm, literal_value, src
+from ..cfg import CFG
 from ..facts import AnalysisBroken, walk, children
 from ..microai.interp import Interp, Obj, Vec, Box, Oracle, enumerate_paths, AssertFail, Thrown, Unsupported
 from ..microai.poly import Poly, to_poly
@@ -379,3 +380,180 @@ def run(chk):
     rule_dim_writers(chk, prog)
     rule_rotation(chk, prog)
     rule_tree_flip(chk, prog)
+    rule_merge_join(chk, prog)
+
+
+_KEYSETS = [([1, 3, 5, 7], [2, 3, 4, 7, 9]), ([2, 3, 4, 7, 9], [1, 3, 5, 7]), ([1, 2, 3], [1, 2, 3]), ([5, 6, 7, 8], [1, 2, 6]), ([1, 2, 6], [5, 6, 7, 8]),
+            ([4, 9, 12], [1, 2, 3, 12, 20, 21]), ([1, 2, 3], []), ([], [1, 2]), ([3, 10, 11, 12], [1, 2, 3])]
+
+
+def rule_merge_join(chk, prog):
+    """The linear-time merges over two id-ordered lookups (libdialect's idiom for `for every id in both`)."""
+    from ..microai.interp import MapVal, default_obj
+    r = chk.rule("MERGE-JOIN", "the tandem iterations over two id-ordered lookups, interpreted on 9 pairs of key sets (disjoint tails on either side, "
+                 "gaps, equal sets, empty sets): Graph::setPosesInCorrespNodes copies the centre to the other graph's node for EXACTLY the ids "
+                 "present in both; Graph::padCorrespNodes pads exactly those; Tree::addNetwork adds to the graph exactly the tree nodes whose id "
+                 "the graph lacks; RoutingAdapter::addEdges gives every edge a connector and the special directions to exactly the listed ids", floor=5)
+
+    def node(i, tag):
+        return Obj("dialect::Node", {"_id": i, "_tag": tag})
+
+    def graph(ids, tag):
+        g = default_obj(prog, "dialect::Graph", {})
+        g.f["m_nodes"] = MapVal({i: node(i, tag) for i in ids})
+        g.f["_tag"] = tag
+        return g
+
+    def interp():
+        it = Interp(prog, Oracle([]))
+        it.vhooks["dialect::Graph::getNodeLookup"] = lambda it_, recv, args: MapVal(dict(recv.f["m_nodes"].d))
+        return it
+
+    def guarded(fn, thunk, what):
+        try:
+            return thunk()
+        except Unsupported as e:
+            raise AnalysisBroken("%s outside the interpreter subset: %s" % (fn.q, e))
+
+    # 1. setPosesInCorrespNodes
+    fn = prog.fn("dialect::Graph::setPosesInCorrespNodes")
+    bad, n = None, 0
+    for a, b in _KEYSETS:
+        G, H = graph(a, "G"), graph(b, "H")
+        rec = []
+        it = interp()
+        it.vhooks["dialect::Node::getCentre"] = lambda it_, recv, args: Obj("Avoid::Point", {"x": Fraction(100 + recv.f["_id"]), "y": Fraction(recv.f["_id"])})
+        it.vhooks["dialect::Node::setCentre"] = lambda it_, recv, args, rec=rec: rec.append((recv.f["_tag"], recv.f["_id"], args[0], args[1]))
+        try:
+            guarded(fn, lambda: it.call(fn, G, None, None, arg_values=[H]), "")
+        except AssertFail as e:
+            bad = bad or "ids %s vs %s: %s" % (a, b, e)
+            continue
+        n += 1
+        want = sorted(("H", i, Fraction(100 + i), Fraction(i)) for i in set(a) & set(b))
+        if sorted(rec) != want:
+            bad = bad or "this graph has ids %s, the other %s: positions are copied to %s, expected exactly the common ids %s" % (
+                a, b, sorted(x[1] for x in rec), sorted(set(a) & set(b)))
+    r.count()
+    (r.bad if bad else r.ok)("Graph::setPosesInCorrespNodes", fn.where(), bad or "%d key-set pairs" % n)
+    tot = n
+
+    # 2. padCorrespNodes
+    fn = prog.fn("dialect::Graph::padCorrespNodes")
+    bad, n = None, 0
+    for a, b in _KEYSETS:
+        ign = a[1:2]
+        G, H = graph(a, "G"), graph(b, "H")
+        rec = []
+        it = interp()
+        it.vhooks["dialect::Graph::getNodeLookupWithIgnore"] = lambda it_, recv, args, ign=ign: MapVal({k: v for k, v in recv.f["m_nodes"].d.items() if k not in ign})
+        it.vhooks["dialect::Node::addPadding"] = lambda it_, recv, args, rec=rec: rec.append((recv.f["_tag"], recv.f["_id"], args[0], args[1]))
+        try:
+            guarded(fn, lambda: it.call(fn, G, None, None, arg_values=[H, Fraction(3), Fraction(4), MapVal({})]), "")
+        except AssertFail as e:
+            bad = bad or "ids %s vs %s: %s" % (a, b, e)
+            continue
+        n += 1
+        common = sorted((set(a) - set(ign)) & set(b))
+        if sorted(rec) != [("H", i, Fraction(3), Fraction(4)) for i in common]:
+            bad = bad or "this graph has ids %s (ignoring %s), the other %s: padding goes to %s, expected exactly %s" % (a, ign, b, sorted(x[1] for x in rec), common)
+    r.count()
+    (r.bad if bad else r.ok)("Graph::padCorrespNodes", fn.where(), bad or "%d key-set pairs" % n)
+    tot += n
+
+    # 3. Tree::addNetwork
+    fn = prog.fn("dialect::Tree::addNetwork")
+    bad, n = None, 0
+    unrecorded_inner, unrecorded_tail = None, None
+    for a, b in _KEYSETS:
+        T = default_obj(prog, "dialect::Tree", {})
+        T.f["m_nodes"] = MapVal({i: node(i, "T") for i in a})
+        sub = graph([], "sub")
+        sub.f["m_edges"] = MapVal({})
+        T.f["m_graph"] = sub
+        G = graph(b, "G")
+        added = []
+        tn, te = MapVal({}), MapVal({})
+        it = interp()
+        it.vhooks["dialect::Graph::getEdgeLookup"] = lambda it_, recv, args: MapVal({})
+        it.vhooks["dialect::Graph::addNode"] = lambda it_, recv, args, added=added: added.append(args[0].f["_id"])
+        try:
+            guarded(fn, lambda: it.call(fn, T, None, None, arg_values=[G, tn, te]), "")
+        except AssertFail as e:
+            bad = bad or "ids %s vs %s: %s" % (a, b, e)
+            continue
+        n += 1
+        want = sorted(set(a) - set(b))
+        if sorted(added) != want:
+            bad = bad or "tree ids %s, graph ids %s: nodes %s are added to the graph, expected exactly the tree's ids the graph lacks, %s" % (a, b, sorted(added), want)
+        unrec = sorted(set(added) - set(tn.d))
+        if unrec:
+            # (the caller puts the recorded nodes -- and only those -- into the tree's cluster)
+            if b and min(unrec) < max(b):
+                unrecorded_inner = unrecorded_inner or "tree ids %s, graph ids %s: added nodes %s are not recorded in treeNodes" % (a, b, unrec)
+            else:
+                unrecorded_tail = unrecorded_tail or (a, b, unrec)
+    r.count()
+    (r.bad if bad else r.ok)("Tree::addNetwork", fn.where(), bad or "%d key-set pairs" % n)
+    tot += n
+    # every added node must end up in the tree's cluster (treeNodes).  Today the loop that runs once the graph's ids are exhausted adds
+    # without recording; that is harmless exactly as long as insertTreeIntoGraph calls addNetwork while the tree's box node (allocated
+    # later than every tree node, hence with a larger id) is still in the graph, which keeps that loop unreachable.
+    r.count()
+    fi = prog.fn("dialect::TreePlacement::insertTreeIntoGraph")
+    if unrecorded_inner:
+        r.bad("tree nodes recorded for the cluster", fn.where(), unrecorded_inner)
+    elif unrecorded_tail is None:
+        r.ok("tree nodes recorded for the cluster", fn.where(), "every added node is recorded")
+    else:
+        g = CFG(fi)
+        net = [c for c in calls(fi) if c.get("cname") == "dialect::Tree::addNetwork"]
+        sever = [c for c in calls(fi) if c.get("cname") == "dialect::Graph::severAndRemoveNode"]
+        if len(net) != 1:
+            raise AnalysisBroken("insertTreeIntoGraph: expected one call of Tree::addNetwork")
+        w = None
+        for sv in sever:
+            if sv["id"] in g.pos and g.search([g.after(sv["id"])], targets=[net[0]["id"]]) is not None:
+                w = sv
+        a_, b_, u_ = unrecorded_tail
+        if w is not None:
+            r.bad("tree nodes recorded for the cluster", fi.loc(w), "the tree's box node is removed from the graph before Tree::addNetwork runs; addNetwork's "
+                  "loop for tree ids beyond the graph's last id adds nodes without recording them in treeNodes (e.g. tree ids %s, graph ids %s: %s), so "
+                  "those nodes are left out of the tree's cluster" % (a_, b_, u_))
+        else:
+            r.ok("tree nodes recorded for the cluster", fi.loc(net[0]), "unrecorded additions only beyond the graph's last id; the box node is still in the "
+                 "graph when addNetwork runs")
+
+    # 4. RoutingAdapter::addEdges
+    fn = prog.fn("dialect::RoutingAdapter::addEdges")
+    bad, n = None, 0
+    for a, b in _KEYSETS:
+        ra = default_obj(prog, "dialect::RoutingAdapter", {})
+        ra.f["edges"] = MapVal({})
+        ra.f["edgeIdToConnRef"] = MapVal({})
+        edges = MapVal({i: Obj("dialect::Edge", {"_id": i}) for i in a})
+        dirs = MapVal({i: Obj("std::pair", {"first": 1, "second": 2}) for i in b})
+        rec = []
+        it = interp()
+        it.ctor_hooks = {"Avoid::ConnRef": lambda it_, o, args, env: None}
+        it.vhooks["dialect::Edge::makeLibavoidConnEnds"] = lambda it_, recv, args, rec=rec: (rec.append((recv.f["_id"], 2 if list(args[:2]) == [1, 2] else 0)),
+                                                                                              Obj("std::pair", {"first": None, "second": None}))[1]
+        it.vhooks["Avoid::ConnRef::setEndpoints"] = lambda it_, recv, args: None
+        try:
+            guarded(fn, lambda: it.call(fn, ra, None, None, arg_values=[edges, dirs]), "")
+        except AssertFail as e:
+            bad = bad or "ids %s vs %s: %s" % (a, b, e)
+            continue
+        n += 1
+        got_conn = sorted(ra.f["edgeIdToConnRef"].d)
+        got_edges = sorted(ra.f["edges"].d)
+        special = sorted(i for i, k in rec if k == 2)
+        plain = sorted(i for i, k in rec if k != 2)
+        if got_conn != sorted(a) or got_edges != sorted(a):
+            bad = bad or "edge ids %s, direction ids %s: connectors exist for %s, recorded edges %s -- every edge must get one" % (a, b, got_conn, got_edges)
+        elif special != sorted(set(a) & set(b)) or plain != sorted(set(a) - set(b)):
+            bad = bad or "edge ids %s, direction ids %s: special directions go to %s, expected exactly %s" % (a, b, special, sorted(set(a) & set(b)))
+    r.count()
+    (r.bad if bad else r.ok)("RoutingAdapter::addEdges", fn.where(), bad or "%d key-set pairs" % n)
+    tot += n
+    r.evaluations = tot
